@@ -403,6 +403,7 @@ class Merge(Expr):
                     right_index,
                     self.suffixes,
                     self.indicator,
+                    self.broadcast_side,
                 )
 
         if (shuffle_left_on or shuffle_right_on) and (
@@ -684,6 +685,7 @@ class BroadcastJoin(Merge, PartitionsFiltered):
         "right_index",
         "suffixes",
         "indicator",
+        "broadcast_side",
         "_partitions",
     ]
     _defaults = {
@@ -694,8 +696,19 @@ class BroadcastJoin(Merge, PartitionsFiltered):
         "right_index": None,
         "suffixes": ("_x", "_y"),
         "indicator": False,
+        "broadcast_side": None,
         "_partitions": None,
     }
+
+    @functools.cached_property
+    def broadcast_side(self):
+        # The side that Merge._lower decided to broadcast. It must not be derived
+        # again from the partition counts: repartitioning the other input or
+        # selecting output partitions changes them
+        side = self.operand("broadcast_side")
+        if side is not None:
+            return side
+        return "left" if self.left.npartitions < self.right.npartitions else "right"
 
     def _divisions(self):
         if self.broadcast_side == "left":
